@@ -946,6 +946,8 @@ def offsets_have_one_maker(F, res, rule="U10"):
             n += 1
             k = seen[sc] = seen.get(sc, -1) + 1
             why = OFFSET_MAKERS.get(p, {}).get(sc)
+            if why is None and sc == "TextSize::of":
+                why = "the length of a text (TextSize::of): a bound, wherever the range test sits"
             res.ob(rule, "offset-maker/%s/%s/%d" % (FL.short(p), sc, k), "this text offset is made by the line map from (line, column), or is a reviewed bound",
                    why is not None, where=f.loc(t["ln"]), how=("reviewed: " + why) if why else "a TextSize/TextRange is built or moved here, outside the line map "
                    "and the reviewed makers: an offset computed from a column is wrong behind the first non-ASCII character", reviewed=why is not None)
